@@ -1249,4 +1249,74 @@ theorem withdraw_comm (M : Addr) (s : KSt) (who : Addr) (shares : Int) (dA : Nat
               · have hm' : ¬ (wHi < minB ∨ wLo < minA) := fun h => hm h.symm
                 rw [if_neg hm, if_neg hm']
 
+/-! ### liquidity providers can always exit (no parameter is consulted by `Withdraw`) -/
+
+/-- On a state satisfying the invariant, a withdrawal of shares the account owns whose share value meets the
+    message's own (positive) minimums cannot be refused: the result is `.ok`.  `withdraw` takes no `Params`
+    argument at all — in particular the allowed-pools list is not consulted, so de-listing a pool that holds
+    liquidity never locks its depositors in. -/
+theorem withdraw_available (M : Addr) (accts : List Addr) (pids : List PoolId) (s : KSt)
+    (who : Addr) (shares : Int) (dA : Denom) (minA : Int) (dB : Denom) (minB : Int)
+    (hw : who ∈ accts) (hwM : who ≠ M) (h : Inv M accts pids s)
+    (hne : dA ≠ dB) (hs0 : 0 < shares) (hmA : 0 < minA) (hmB : 0 < minB)
+    (hown : shares ≤ s.sh who (poolId dA dB))
+    (r : Pool) (hr : s.pool (poolId dA dB) = some r)
+    (hvA : minA ≤ (if dB < dA then r.b else r.a) * shares / r.s)
+    (hvB : minB ≤ (if dB < dA then r.a else r.b) * shares / r.s) :
+    ∃ s', withdraw M s who shares dA minA dB minB = .ok s' := by
+  cases hres : withdraw M s who shares dA minA dB minB with
+  | ok s' => exact ⟨s', rfl⟩
+  | panic => exact absurd hres (withdraw_no_panic M accts pids s who shares dA minA dB minB hw hwM h)
+  | err =>
+    exfalso
+    unfold withdraw at hres
+    split at hres
+    · rename_i hvb
+      rcases hvb with hx | hx | hx | hx
+      · exact hx hs0
+      · exact hx hmA
+      · exact hx hmB
+      · exact hne hx
+    simp only [] at hres
+    generalize hpid : poolId dA dB = pid at *
+    split at hres
+    · rename_i h0; omega
+    split at hres
+    · rename_i hgt; omega
+    obtain ⟨ra, rb, rs⟩ := h.valid _ r hr
+    have hot := owned_le_total M accts pids s h who hw pid
+    rw [hr] at hot; simp only [totalShares] at hot
+    rw [hr] at hres
+    simp only [] at hres
+    rw [loadRecord_valid r ra rb rs] at hres
+    simp only [] at hres
+    obtain ⟨⟨p', wLo, wHi⟩, hrem⟩ := removeLiquidity_total r shares (by omega) (by omega) hs0 (by omega)
+    rw [hrem] at hres
+    simp only [] at hres
+    obtain ⟨-, -, -, -, -, -, -, -, -, -, -, eLo, eHi⟩ :=
+      removeLiquidity_spec r p' shares wLo wHi (by omega) (by omega) hrem
+    have hA : minA ≤ (if dB < dA then wHi else wLo) := by
+      by_cases hc : dB < dA
+      · simp only [hc, ite_true] at hvA ⊢; omega
+      · simp only [hc, ite_false] at hvA ⊢; omega
+    have hB : minB ≤ (if dB < dA then wLo else wHi) := by
+      by_cases hc : dB < dA
+      · simp only [hc, ite_true] at hvB ⊢; omega
+      · simp only [hc, ite_false] at hvB ⊢; omega
+    generalize hwA : (if dB < dA then wHi else wLo) = wA at hres hA
+    generalize hwB : (if dB < dA then wLo else wHi) = wB at hres hB
+    split at hres
+    · rename_i hz; omega
+    split at hres
+    · rename_i hm; omega
+    split at hres
+    · cases hres
+    split at hres
+    · cases hres
+    split at hres
+    · cases hres
+    split at hres
+    · cases hres
+    · cases hres
+
 end KV.SW
